@@ -250,15 +250,14 @@ func runC12(c *Ctx) {
 	cbc := c.fn("blockchain", "BlockChain", "connectBestChain")
 	if cbc != nil {
 		rc := firstCall(cbc, callPred(R{"blockchain", "BlockChain", "reorganizeChain"}))
-		c.G2("G2-work", "connectBestChain|more work than the tip", cbc, rc, "node.WorkSum.Cmp(b.BestChain.WorkSum) <= 0", condCmp(func(v ssa.Value) bool {
-			cl, ok := ssau.Unwrap(v).(*ssa.Call)
-			if !ok || !methodCallNamed(cl, "Cmp") || len(cl.Call.Args) != 2 {
-				return false
-			}
-			fromNode := ssau.IsFieldOf(ssau.Unwrap(cl.Call.Args[0]), "BlockNode", "WorkSum") && ssau.DependsOn(cl.Call.Args[0], func(x ssa.Value) bool { return paramNamed(x, "node") })
-			fromBest := ssau.IsFieldOf(ssau.Unwrap(cl.Call.Args[1]), "BlockNode", "WorkSum") && ssau.DependsOn(cl.Call.Args[1], func(x ssa.Value) bool { return ssau.IsFieldOf(x, "BlockChain", "BestChain") })
-			return fromNode && fromBest
-		}, isConstInt(0), token.LEQ, false))
+		fromNode := func(v ssa.Value) bool {
+			return ssau.IsFieldOf(ssau.Unwrap(v), "BlockNode", "WorkSum") && ssau.DependsOn(v, func(x ssa.Value) bool { return paramNamed(x, "node") })
+		}
+		fromBest := func(v ssa.Value) bool {
+			return ssau.IsFieldOf(ssau.Unwrap(v), "BlockNode", "WorkSum") && ssau.DependsOn(v, func(x ssa.Value) bool { return ssau.IsFieldOf(x, "BlockChain", "BestChain") })
+		}
+		// required: node work > best work (any equivalent spelling of the big.Int comparison)
+		c.G2("G2-work", "connectBestChain|more work than the tip", cbc, rc, "node.WorkSum > b.BestChain.WorkSum (big.Int.Cmp)", bigRelArm(fromNode, fromBest, func(c int) bool { return c > 0 }))
 		// the tip-extension arm: connectBlock checked
 		c.G1s("G2-work", "connectBestChain|connectBlock or reorganize", cbc, "connectBlock / reorganizeChain", callPred(R{"blockchain", "BlockChain", "connectBlock"}, R{"blockchain", "BlockChain", "reorganizeChain"}), G1Opt{HasIdx: true, Idx: 2, IgnoreExit: func(ret *ssa.Return) bool {
 			// exits that report "not in main chain" (first result false) do not claim a connection
